@@ -14,15 +14,18 @@ Oracle, written from the property statement over the concatenated input text I
 character scans (no use of the interpreter's lines/trim models):
  (i)   text-preserved: deleting line-leading whitespace from O and from I gives
        the same string (so nothing but whitespace at line starts differs)
- (ii)  indent-follows-braces: a line with a body and no leading whitespace of its
-       own is indented by exactly 2*depth spaces, where depth follows the
+ (ii)  indent-follows-braces: a line with a body that has no leading whitespace of
+       its own, or whose start and first non-blank character both lie in one
+       multi-line fragment (a fragment in which a newline is followed by more
+       text), is indented by exactly 2*depth spaces, where depth follows the
        property's nesting rule evaluated on the *lines of I*: a line whose first
        non-blank char is an interpreted `}` is one level shallower (saturating at
        0), a line whose last non-blank char is an interpreted `{` makes the
        following lines one level deeper, lines whose first non-blank chars are an
        interpreted `//` count for neither; indent(k)/deindent(k) shift the depth
        of every line that starts after the call.
-       (ii-w) weak form for lines that bring their own leading whitespace:
+       (ii-w) weak form for the remaining lines that bring their own leading
+       whitespace (they start in a single-line fragment, which is kept verbatim):
        indentation >= 2*depth.
  (iii) literal-neutral: (i)+(ii) for call sequences containing push_str_literal
        (literal characters never open/close/comment in the rule above)
@@ -53,13 +56,17 @@ PROBE = "\na\n"
 
 def bounds(tier):
     """list of (calls, fragment cap) configurations; every kind sequence of each is checked"""
+    # narrow job (for whole multi-line fragments): indent(0..2) followed by ONE fragment of <= 5 (quick) / <= 6
+    # (thorough) chars over {a, space, '{', '}', newline}
+    n = 5 if tier == "quick" else 6
+    narrow = dict(calls=2, cap=n, caps=[0, n], amt=2, only=[(2, 0), (2, 1)], alphabet="a {}\n")
     if tier == "quick":
-        return [dict(calls=2, cap=3, amt=2)]
+        return [dict(calls=2, cap=3, amt=2), narrow]
     # measured on the repaired source.rs (commit 717df73): 2 text calls x 4 chars each is NOT decided within the
     # 300 s cap as one query and needs ~23 min as 25 length cubes, so the thorough tier widens along other axes
     return [dict(calls=2, cap=3, amt=2),
             dict(calls=3, cap=2, amt=2, min_text=3),
-            dict(calls=2, cap=4, caps=[3, 4], amt=2, only=[(0, 0)])]
+            dict(calls=2, cap=4, caps=[3, 4], amt=2, only=[(0, 0)]), narrow]
 
 
 # --------------------------------------------------------------------------- interpretation
@@ -177,6 +184,8 @@ def oracle(calls, out, out2):
     parts, masks, events = [], [], []
     I = bstr.EMPTY
     Mk = bstr.EMPTY
+    Mm = bstr.EMPTY
+    Mf = bstr.EMPTY     # index of the call a character comes from
     any_literal = FALSE
     pre_text = []       # text before each call (for shape predicates)
     for kind, text, amt in calls:
@@ -187,6 +196,11 @@ def oracle(calls, out, out2):
         pre_text.append(I)
         t = bstr.ite(is_text, text.b, bstr.EMPTY)
         m = BStr(t.n, [Ite(Eq(c, Z8), Z8, Ite(is_lit, bv(ord("L"), 8), bv(ord("S"), 8))) for c in t.chars])
+        # is the fragment multi-line (some newline is followed by more text)?
+        multi = Or(*[And(bstr.ceq(t.chars[j], "\n"), Not(Eq(t.chars[j + 1], Z8))) for j in range(t.cap - 1)])
+        mm = BStr(t.n, [Ite(Eq(c, Z8), Z8, Ite(multi, bv(ord("M"), 8), bv(ord("U"), 8))) for c in t.chars])
+        Mm = bstr.concat(Mm, mm)
+        Mf = bstr.concat(Mf, BStr(t.n, [Ite(Eq(c, Z8), Z8, bv(ord("0") + len(pre_text), 8)) for c in t.chars]))
         # explicit indentation events: (position in I, +amount / -amount)
         events.append((I.n, And(Eq(k, bv(2, 2))), And(Eq(k, bv(3, 2))), ZeroExt(amt.term, 8)))
         I = bstr.concat(I, t)
@@ -194,7 +208,12 @@ def oracle(calls, out, out2):
     I_user, Mk_user = I, Mk
     I = bstr.concat(I, BStr.lit(PROBE))
     Mk = bstr.concat(Mk, BStr.lit("S" * len(PROBE)))
+    Mm = bstr.concat(Mm, BStr.lit("M" * len(PROBE)))
+    Mf = bstr.concat(Mf, BStr.lit("z" * len(PROBE)))
     cap = I.cap
+    Mfc = Mf.padded(cap)
+    Mmc = Mm.padded(cap)
+    in_multi = [Eq(Mmc[p], bv(ord("M"), 8)) for p in range(cap)]
     Mc = Mk.padded(cap)
     synt = [Eq(Mc[p], bv(ord("S"), 8)) for p in range(cap)]
 
@@ -249,8 +268,16 @@ def oracle(calls, out, out2):
         for p in range(so.P):
             W = Add(W, b2bv(And(so.lead[p], so.on_line(p, k)), 8))
         want = z3.Concat(z3.Extract(6, 0, depth), bv(0, 1))     # 2*depth
-        goals_exact.append(Implies(And(exists, has_body, Not(own_ws)), Eq(W, want)))
-        goals_weak.append(Implies(And(exists, has_body, own_ws), Ule(want, W)))
+        # the line starts inside a multi-line fragment: such lines are re-indented, so their own blanks do not count
+        # ... provided the line's first non-blank character comes from that same fragment (blanks and text that a
+        # later fragment adds to the line are kept verbatim)
+        f_start, f_first = Z8, Z8
+        for p in range(cap):
+            f_start = Ite(And(inl[p], si.linestart[p]), Mfc[p], f_start)
+            f_first = Ite(firstp[p], Mfc[p], f_first)
+        starts_multi = And(Or(*[And(inl[p], si.linestart[p], in_multi[p]) for p in range(cap)]), Eq(f_start, f_first))
+        goals_exact.append(Implies(And(exists, has_body, Or(Not(own_ws), starts_multi)), Eq(W, want)))
+        goals_weak.append(Implies(And(exists, has_body, own_ws, Not(starts_multi)), Ule(want, W)))
         D = Ite(exists, Ite(opens, Add(depth, bv(1, 8)), depth), D)
     g["wellnested"] = wellnested
     g["indent_exact"] = And(*goals_exact)
@@ -275,7 +302,7 @@ def oracle(calls, out, out2):
 
 def shape_predicates(calls, pre_text):
     """shape classes of violations, as predicates over the inputs (priority order)"""
-    s_pop, s_trim, s_trim_lit, s_close, s_open, s_comment, s_litmid = [], [], [], [], [], [], []
+    s_pop, s_trim, s_trim_lit, s_close, s_open, s_comment, s_litmid, s_blank, s_blank_lit = [], [], [], [], [], [], [], [], []
     texts = []
     for i, (kind, text, amt) in enumerate(calls):
         k = bv(kind, 2) if isinstance(kind, int) else kind
@@ -302,6 +329,10 @@ def shape_predicates(calls, pre_text):
         s_comment.append(And(is_push, mid, Or(first_is("/", "/"), And(first_is("/"), bstr.suffixof(BStr.lit("/"), pre)))))
         s_open.append(And(is_push, no_trailing_nl, ends_open))
         s_litmid.append(And(is_lit, mid))
+        # a multi-line fragment with a line that has leading blanks followed by text
+        own = Or(*[And(sc.lead[p], sc.body[p + 1]) for p in range(b.cap - 1)])
+        s_blank.append(And(is_push, multi, own))
+        s_blank_lit.append(And(is_lit, multi, own))
     # (shape name, predicate); the name starts with the function whose call exhibits the shape
     return [("push_str/brace-pop-deletes-midline-spaces", Or(*s_pop)),
             ("push_str/multiline-fragment-first-line-trimmed-midline", Or(*s_trim)),
@@ -309,7 +340,9 @@ def shape_predicates(calls, pre_text):
             ("push_str/close-brace-at-fragment-start-midline", Or(*s_close)),
             ("push_str/comment-marker-at-fragment-start-midline", Or(*s_comment)),
             ("push_str/open-brace-at-fragment-end-midline", Or(*s_open)),
-            ("push_str_literal/literal-fragment-midline", Or(*s_litmid))]
+            ("push_str_literal/literal-fragment-midline", Or(*s_litmid)),
+            ("push_str/multiline-fragment-line-with-own-blanks", Or(*s_blank)),
+            ("push_str_literal/multiline-fragment-line-with-own-blanks", Or(*s_blank_lit))]
 
 
 # --------------------------------------------------------------------------- concrete oracle for the native replay
@@ -321,11 +354,17 @@ def concrete_oracle(ops, out2):
     """ops: [[kind, arg]] incl. probe; out2: native buffer; returns violated clauses"""
     I = ""
     mask = ""
+    multi = ""
+    frag = []
+    id_counter = [0]
     events = []
     for kind, arg in ops:
         if kind in ("push_str", "push_str_literal"):
             I += arg
             mask += ("L" if kind == "push_str_literal" else "S") * len(arg)
+            multi += ("M" if any(ch == "\n" and j + 1 < len(arg) for j, ch in enumerate(arg)) else "U") * len(arg)
+            frag += [id_counter[0]] * len(arg)
+            id_counter[0] += 1
         elif kind == "indent":
             events.append((len(I), arg))
         elif kind == "deindent":
@@ -366,9 +405,10 @@ def concrete_oracle(ops, out2):
             C += 1
         if k < len(olines):
             W = len(olines[k]) - len(olines[k].lstrip(" \t"))
-            if body and lead == 0 and W != 2 * depth:
+            starts_multi = pos < len(multi) and multi[pos] == "M" and bpos < len(frag) and frag[pos] == frag[bpos]
+            if body and (lead == 0 or starts_multi) and W != 2 * depth:
                 ind_bad.append("indent-exact line %d: %d spaces, nesting depth %d" % (k, W, depth))
-            if body and lead > 0 and W < 2 * depth:
+            if body and lead > 0 and not starts_multi and W < 2 * depth:
                 ind_bad.append("indent-weak line %d: %d spaces, nesting depth %d" % (k, W, depth))
         D = depth + (1 if opens else 0)
         prev = pos
@@ -538,7 +578,7 @@ def _check_combo(kinds, tier, seed, B, name, combo, dec, res):
         calls = []
         for i in range(K):
             # inputs a call kind does not use are fixed, so that models are canonical
-            t = inp.str("t%d" % i, caps[i] if kinds[i] in (0, 1) else 0, ALPHABET)
+            t = inp.str("t%d" % i, caps[i] if kinds[i] in (0, 1) else 0, B.get("alphabet", ALPHABET))
             a = inp.usize("a%d" % i, B["amt"] if kinds[i] in (2, 3) else 0)
             calls.append((kinds[i], t, a))
         it.assume(inp.wf())
@@ -574,7 +614,7 @@ def _check_combo(kinds, tier, seed, B, name, combo, dec, res):
     for _ in range(12):
         vals = {}
         for i in range(K):
-            vals["t%d" % i] = "".join(rnd.choice(ALPHABET) for _ in range(rnd.randint(0, caps[i]))) if kinds[i] in (0, 1) else ""
+            vals["t%d" % i] = "".join(rnd.choice(B.get("alphabet", ALPHABET)) for _ in range(rnd.randint(0, caps[i]))) if kinds[i] in (0, 1) else ""
             vals["a%d" % i] = rnd.randint(0, B["amt"]) if kinds[i] in (2, 3) else 0
         vl.append(vals)
     nat = native_run([native_case(ops_of(kind_vals(v), K)) for v in vl])
@@ -663,14 +703,16 @@ def run(ctx):
                                      "enumerated; texts and amounts symbolic) with fragments = every string of length <= %d over "
                                      "{a, space, '{', '}', '/', newline}"
                                      % (B["calls"], (" containing at least %d text calls" % B["min_text"] if B.get("min_text") else "")
-                                        + (" restricted to the kind sequences %s with per-call caps %s" % (
-                                            [[KINDS[k] for k in c] for c in B["only"]], B.get("caps")) if B.get("only") else ""),
+                                        + (" restricted to the kind sequences %s with per-call caps %s%s" % (
+                                            [[KINDS[k] for k in c] for c in B["only"]], B.get("caps"),
+                                            " and alphabet %r" % B["alphabet"] if B.get("alphabet") else "") if B.get("only") else ""),
                                         B["cap"]) for B in BS)
                            + "; each followed by the probe push_str(%r)" % PROBE,
                   "amounts": "0..%d" % BS[0]["amt"], "start_state": "Source::default()"}
     res.outside_claim = ["longer call sequences / fragments, other characters (tabs, \\r, non-ASCII)",
                          "append_src, set_indent, as_mut_string, the uwrite!/uwriteln! macros (they call push_str)",
-                         "indentation of lines that carry their own leading whitespace is only bounded from below (ii-w)",
+                         "indentation of lines that start in a single-line fragment and carry their own leading whitespace is only "
+                         "bounded from below (ii-w); lines that start inside a multi-line fragment must be indented exactly",
                          "texts in which an interpreted `}` line occurs at nesting depth 0 are outside clauses (ii)/(iv) "
                          "(the statement does not define nesting below zero; the code saturates)"]
     res.assumptions = ["deindent(k) is only called when k <= current indentation (its debug-mode underflow panic is assumed away)",
